@@ -139,6 +139,58 @@ class EncEngine:
             res["detail"] = "counterexample did not reproduce natively: %s" % rp["output"][-600:]
         return res
 
+    # ---- memory safety of a skeleton (C09) --------------------------------
+    def run_safety(self, sk):
+        """the same harness with every CBMC memory-safety/overflow check on;
+        only built-in check failures count here (the harness's own encoding
+        assertions are C01-C05's business)"""
+        name = re.sub(r"[^A-Za-z0-9_]", "_", sk.name) + "_safe"
+        src = sk.emit()
+        res = {"name": "c09.enc." + sk.name, "text": sk.text(), "status": None, "wall": 0.0, "failed": [], "detail": "",
+               "family": sk.family, "inputs": None, "replay": None}
+        try:
+            gb = core.compile_harness(self.wd, name, src, self.lib + self.common)
+        except core.MachineryError as e:
+            res["status"] = "machinery"; res["detail"] = str(e)[-800:]
+            return res
+        v = core.run_cbmc(gb, unwind=24, unwindset=self.uw, timeout=self.timeout, checks="full")
+        res["wall"] = v.wall
+        if v.status != "ok":
+            res["status"] = "inconclusive"; res["detail"] = "%s %s" % (v.status, v.messages[-400:])
+            return res
+        res["nprops"] = len(v.props)
+        wit = [p for p in v.props if v.props[p][1].startswith("WITNESS")]
+        if not wit or any(v.props[p][0] != "FAILURE" for p in wit):
+            res["status"] = "machinery"; res["detail"] = "vacuity: witness not reachable"
+            return res
+        bad = [p for p in v.failed if p not in wit and not v.props[p][1].startswith("VF ")]
+        # an unwinding assertion that fails here means a loop of the library ran longer than its bound: termination is part of C09
+        if not bad:
+            res["status"] = "held"
+            return res
+        res["failed"] = [(p, v.props[p][1]) for p in bad]
+        v2 = core.run_cbmc(gb, unwind=24, unwindset=self.uw, timeout=self.timeout, checks="full", trace=True, props=[bad[0]])
+        if v2.status != "ok" or bad[0] not in v2.traces:
+            res["status"] = "inconclusive"; res["detail"] = "no trace"
+            return res
+        res["inputs"] = v2.traces[bad[0]]
+        c = os.path.join(self.wd, name + ".c")
+        srcs = [c] + [os.path.join(core.CDIR, f) for f in ("enc.c", "x86dec.c", "vf_main.c")] + core.repo_sources()
+        try:
+            exe = core.build_native(self.wd, name + ".san", srcs, sanitize=True)
+            args = ["%d=%d" % (k, val) for k, val in sorted(res["inputs"].items())]
+            rc, out, err, _, to = core.run([exe] + args, timeout=20, limit=False)
+            san = "AddressSanitizer" in err or "runtime error" in err
+            m = re.search(r"^TEXT (.*)$", out, re.M)
+            res["replay"] = {"reproduced": san, "exit": rc, "output": out[-600:] + err[-900:], "args": args, "text": m.group(1) if m else "",
+                             "bytes": "", "rc": rc, "options": None}
+            res["status"] = "violated" if san else "machinery"
+            if not san:
+                res["detail"] = "built-in check %s failed in CBMC but no sanitizer report natively" % (res["failed"][0],)
+        except core.MachineryError as e:
+            res["status"] = "machinery"; res["detail"] = str(e)[-600:]
+        return res
+
     # ---- replay ----------------------------------------------------------
     def replay(self, sk, src, name, inputs, exclude=None, only=None):
         c = os.path.join(self.wd, name + ".c")
